@@ -288,6 +288,21 @@ Theorem guard_vssetfields_defines_layout : forall acc nv wn,
 Proof. exact vssetfields_define_spec. Qed.
 Print Assumptions guard_vssetfields_defines_layout.
 
+(** The write attach of an existing vdata opens its data element (Hstartwrite, the step that refuses a read-only file)
+    on every path of that branch -- conditional depth 2 = the two enclosing else-branches -- and checks the result;
+    SDreaddata and SDwritedata name themselves in cdf_routine_name (NCcoordck decides by that name whether a read past
+    the end of one record variable is refused or filled by writing records); GRsetcompress fails exactly when the
+    image's element cannot be created. *)
+Theorem attach_and_read_paths_keep_their_gates :
+  vsattach_w_hstartwrite_depth = 2 /\ vsattach_w_failure_checked = 1 /\
+  sdreaddata_sets_routine_name = 1 /\ sdwritedata_sets_routine_name = 1.
+Proof. exact round4_structure. Qed.
+Print Assumptions attach_and_read_paths_keep_their_gates.
+
+Theorem guard_grsetcompress : forall r, grsetcompress_fails_when r = 1 <-> r = FAIL.
+Proof. exact grsetcompress_fail_spec. Qed.
+Print Assumptions guard_grsetcompress.
+
 Theorem guard_vattach : forall mode facc,
   vattach_denied mode facc = 1 <-> (mode = CH_W /\ Z.land facc DFACC_WRITE = 0).
 Proof. exact vattach_denied_spec. Qed.
